@@ -54,3 +54,9 @@ retarget("src/coroutine_impl.rs", "use generator::{Generator, Gn};",
          "use crate::verif_shim::gen::{Generator, Gn};")
 retarget("src/pool.rs", "use generator::Gn;", "use crate::verif_shim::gen::Gn;")
 print("ok")
+
+# 5. (added later, separate commit) 4-slot queue blocks under cfg(kani): same pattern as the imports
+for f, old in [("may_queue/src/mpsc.rs", "const BLOCK_SHIFT: usize = 6;"), ("may_queue/src/spsc.rs", "pub const BLOCK_SHIFT: usize = 5;"),
+               ("may_queue/src/spmc.rs", "pub const BLOCK_SHIFT: usize = 5;")]:
+    vis = "pub " if old.startswith("pub") else ""
+    edit(f, lambda s, old=old, vis=vis: s.replace(old + "\n", "#[cfg(not(kani))]\n" + old + "\n#[cfg(kani)]\n" + vis + "const BLOCK_SHIFT: usize = 2;\n", 1))
